@@ -46,7 +46,7 @@ theorem c05_halt_cycle (c : Cpu) (m : Flat) (h : AtFetch c m) (hop : m.read c.re
   have hi : instrAt c.regs.pc m = some .halt := instrAt_of_byte _ _ _ _ hop (by decide) (by decide)
   obtain ⟨_, _, hfin, hcr, _, hregs, hbus⟩ := C02.c02_cycles c m .halt h hi
   have hd : decide (m.read c.regs.pc = 0xcb) = false := by rw [hop]; decide
-  simp only [Option.all, condOf, cyclesOf] at hfin hcr hregs hbus
+  simp only [cyclesOf] at hfin hcr hregs hbus
   rw [cycles_one] at hfin hcr hregs hbus
   rw [hd] at hregs hbus
   exact ⟨hfin, hcr, by rw [hregs]; rfl, by rw [hbus]; rfl⟩
@@ -357,5 +357,43 @@ example : AtFetch Cpu.init (⟨fun a => if a = 0x0100 then 0x76 else 0x04, false
     (⟨fun a => if a = 0x0100 then 0x76 else 0x04, false, 0x1f, 0x14⟩ : Flat).read Cpu.init.regs.pc = 0x76 ∧
     (⟨fun a => if a = 0x0100 then 0x76 else 0x04, false, 0x1f, 0x14⟩ : Flat).read (Cpu.init.regs.pc + 1) = 0x04 := by
   refine ⟨⟨?_, ?_, ?_, ?_, ?_, ?_⟩, ?_, ?_, ?_⟩ <;> decide
+
+/-! ### the same statements for the tables regenerated from dispatch.go (`c01_tables : Tables.gen = specTables`) -/
+
+theorem c05_halt_cycle_gen (c : Cpu) (m : Flat) (h : AtFetch c m) (hop : m.read c.regs.pc = 0x76) :
+    (cycle Tables.gen c m).1.isFinished = true ∧
+    (cycle Tables.gen c m).1.crashed = false ∧
+    (cycle Tables.gen c m).1.regs =
+      haltF (fetchRegs c.regs false) ({ m with ime := m.ime || c.regs.eiPending } : Flat) ∧
+    (cycle Tables.gen c m).2 = { m with ime := m.ime || c.regs.eiPending } := by
+  rw [C01.c01_tables]; exact c05_halt_cycle c m h hop
+
+theorem c05_haltbug_twice_gen (c : Cpu) (m : Flat) (i : Instr) (h : AtFetch c m)
+    (hbug : c.regs.haltbug = true) (hcb : m.read c.regs.pc ≠ 0xcb)
+    (hi : instrAt c.regs.pc m = some i) :
+    let n := cyclesOf i ((condOf i).all fun cc => cc.holds (abs c.regs m))
+    let s := cycles Tables.gen n c m
+    -- first execution: PC was not advanced by the fetch
+    s.1.isFinished = true ∧
+    s.1.regs = (runList ((micro i).take n) { fetchRegs c.regs false with pc := c.regs.pc }
+                  { m with ime := m.ime || c.regs.eiPending }).1 ∧
+    -- second fetch
+    (s.1.regs.pc = c.regs.pc → s.2.read c.regs.pc = m.read c.regs.pc →
+      instrAt s.1.regs.pc s.2 = some i ∧
+      (fetch Tables.gen s.1 s.1.regs s.2).cpu.ops = micro i ∧
+      (s.1.regs.haltbug = false → (fetch Tables.gen s.1 s.1.regs s.2).cpu.regs.pc = c.regs.pc + 1)) := by
+  rw [C01.c01_tables]; exact c05_haltbug_twice c m i h hbug hcb hi
+
+theorem c05_haltbug_inc_b_gen (c : Cpu) (m : Flat) (h : AtFetch c m) (hep : c.regs.eiPending = false)
+    (hbug : c.regs.haltbug = false) (hime : m.ime = false) (hp : pendingBits m ≠ 0)
+    (h0 : m.read c.regs.pc = 0x76) (h1 : m.read (c.regs.pc + 1) = 0x04) :
+    (cycle Tables.gen c m).1.regs.halted = false ∧
+    (cycle Tables.gen c m).1.regs.haltbug = true ∧
+    (cycles Tables.gen 3 c m).1.isFinished = true ∧
+    (cycles Tables.gen 3 c m).1.regs.b = c.regs.b + 2 ∧
+    (cycles Tables.gen 3 c m).1.regs.pc = c.regs.pc + 2 ∧
+    (cycles Tables.gen 3 c m).1.regs.haltbug = false ∧
+    (cycles Tables.gen 3 c m).2 = m := by
+  rw [C01.c01_tables]; exact c05_haltbug_inc_b c m h hep hbug hime hp h0 h1
 
 end Tetro.C05
